@@ -176,9 +176,8 @@ func writeReplay(spec *Spec, u *Unit, tc *TierCfg, v *Violation, expect string, 
 func confirms(v *Violation, o Outcome) bool {
 	switch v.Kind {
 	case "assert":
-		if o.Status != "assert" {
-			return false
-		}
+		// the assertion failed natively: what happens to the run afterwards (the engine cuts the path there,
+		// the native run goes on and may block or crash) is irrelevant
 		for _, f := range o.Fails {
 			if f == v.Msg {
 				return true
